@@ -1,5 +1,6 @@
 import MesonModel.Life.UpdateLemmas
 import MesonModel.Life.ParentCurrent
+import MesonModel.Life.Invariant
 /-
 C08 — option state persists faithfully across the build-directory lifecycle.
 
@@ -31,17 +32,26 @@ theorem failed_command_is_identity_partial (d : Dir) (c : Cmd) (e : Err) (l : Bo
   | setup nd =>
     simp only [step] at *
     cases hc : d.core with
-    | none => simp only [hc] at h ⊢; exact firstInvocation_failed _ _ _ _ h
+    | none =>
+      simp only [hc] at h ⊢
+      split at h
+      · rename_i hco; simp [hco]
+      · rename_i hco; simp only [hco]; exact firstInvocation_failed _ _ _ _ h
     | some c => simp only [hc] at h ⊢; exact configure_failed _ _ _ _ h
   | configure args => exact configure_failed _ _ _ _ h
   | reconfigure nd =>
     simp only [step] at *
     cases hc : d.core with
-    | none => simp only [hc] at h ⊢; exact firstInvocation_failed _ _ _ _ h
+    | none =>
+      simp only [hc] at h ⊢
+      split at h
+      · rename_i hco; simp only [hco, if_true]; exact firstInvocation_failed _ _ _ _ h
+      · rename_i hco; simp only [hco]; exact firstInvocation_failed _ _ _ _ h
     | some c => simp only [hc] at h ⊢; exact reconfigure_failed _ _ _ _ _ h
   | wipe nd => exact absurd rfl (hw nd)
   | editSet b n sp => simp [step] at h
   | editRemove b n => simp [step] at h
+  | corrupt => simp [step] at h
 
 /-- every command of the history fails and none is a wipe -/
 def AllFail : Dir → List Cmd → Prop
@@ -287,6 +297,76 @@ theorem repointYieldingOnly_counterexample :
    MesonModel.Options.repointYieldingOnly_counterexample.2.2.1, MesonModel.Options.repointYieldingOnly_counterexample.2.2.2,
    repaired_on_the_same_history.2.2⟩
 
+/-! ## the directory invariant, at the level of `step` and of histories -/
+
+/-- the well-formedness predicate on directory states is an invariant of `step` for every command (setup,
+reconfigure, configure, wipe, regeneration after a corrupt coredata.dat, option-file edits, failing variants) that does
+not delete an option from the top-level option file -/
+theorem dirInv_step (d : Dir) (c : Cmd) (hc : NoTopRemoval c) (hd : DirInv d) : DirInv (step d c).1 :=
+  step_inv d c hc hd
+
+/-- `ParentCurrent`, lifted to histories: after any history from an unconfigured directory that never deletes a
+top-level option, distinct keys own distinct objects and every parent pointer is the registered top-level object -/
+theorem parentCurrent_of_history (h : List Cmd) (d : Dir) (hd : d.core = none) (hn : ∀ c ∈ h, NoTopRemoval c)
+    (c : Core) (hc : (runHist d h).core = some c) : Wf c.store ∧ ParentCurrent c.store :=
+  let hi := runHist_inv h d hn (dirInv_empty d hd) c hc
+  ⟨hi.1, hi.2.1⟩
+
+/-- `yield_follows_current_parent` at history level (histories that never delete a top-level option): an option that
+inherits reads the object registered under its top-level key, i.e. the very object `-Dname=…` sets; when that
+object is itself plain (not inheriting, not overridden) the two effective values are equal -/
+theorem yield_follows_current_parent_partial_hist (h : List Cmd) (d : Dir) (hd : d.core = none)
+    (hn : ∀ c ∈ h, NoTopRemoval c) (c : Core) (hc : (runHist d h).core = some c)
+    (k : Key) (id pid : Nat) (o p : Obj) (hm : k.machine = .host)
+    (hk : alookup k c.store.options = some id) (ho : c.store.heap[id]? = some o) (ha : alookup k c.store.augments = none)
+    (hy : o.yielding = true) (hp : o.parent = some pid) (hpo : c.store.heap[pid]? = some p) :
+    alookup k.asRoot c.store.options = some pid ∧ getValueFor c.store k = .ok p.value ∧
+    (p.yielding = false → alookup k.asRoot c.store.augments = none → getValueFor c.store k.asRoot = getValueFor c.store k) := by
+  obtain ⟨_, hpc⟩ := parentCurrent_of_history h d hd hn c hc
+  have hroot := hpc k id o pid hk ho hp
+  have he : ensureKey c.store k = k := ensureKey_of_host c.store k hm
+  have hv : getValueFor c.store k = .ok p.value := by
+    simp [getValueFor, getIdAndValue, resolveId, he, hk, ho, ha, hy, hp, hpo, Except.map]
+  refine ⟨hroot, hv, ?_⟩
+  intro hpy har
+  have hmr : k.asRoot.machine = .host := by simpa [Key.asRoot] using hm
+  have her : ensureKey c.store k.asRoot = k.asRoot := ensureKey_of_host c.store k.asRoot hmr
+  rw [hv]
+  simp [getValueFor, getIdAndValue, resolveId, her, hroot, hpo, har, hpy, Except.map]
+
+/-- `drop_override_returns_inherited` at history level: after such a history, `-Usub:opt` on an option that has a
+parent returns it to the value of the object registered under the top-level key -/
+theorem drop_override_returns_inherited_hist (h : List Cmd) (d : Dir) (hd : d.core = none)
+    (hn : ∀ c ∈ h, NoTopRemoval c) (c : Core) (hc : (runHist d h).core = some c)
+    (k : Key) (id pid : Nat) (o p : Obj) (hx : c.store.isCross = false) (hm : k.machine = .host) (hst : k.subTruthy = true)
+    (ha : alookup k c.store.augments = none) (hk : alookup k c.store.options = some id) (ho : c.store.heap[id]? = some o)
+    (hp : o.parent = some pid) (hpo : c.store.heap[pid]? = some p) :
+    alookup k.asRoot c.store.options = some pid ∧ getValueFor (configureOne (k, none) c.store).2 k = .ok p.value := by
+  obtain ⟨hw, hpc⟩ := parentCurrent_of_history h d hd hn c hc
+  exact drop_override_returns_inherited_current c.store k id pid o p hx hm hw hpc hst ha hk ho hp hpo
+
+/-- the command names option `n` (sets or drops it, edits it, or re-derives everything) -/
+def Mentions (n : Str) : Cmd → Bool
+  | .setup d => d.any (fun p => p.1.name == n)
+  | .reconfigure d => d.any (fun p => p.1.name == n)
+  | .configure a => a.any (fun p => p.1.name == n)
+  | .wipe _ => true
+  | .editSet _ m _ => m == n
+  | .editRemove _ m => m == n
+  | .corrupt => false
+
+/-- the full history-level clause, kept visible: a command that does not mention option `n` (and is not a `buildtype`
+/ `prefix` assignment, which fan out), run on a well-formed directory whose option files hold no unread edit of
+`n`, leaves the effective value of every option named `n` as it was.  NOT proved: it needs the frame property of
+`set_from_configure_command` / `initialize_*` for other names (C07 has it for `set_user_option`) and "a re-read
+option file whose entry for `n` is unchanged leaves `n` alone" threaded through `interpProg`. -/
+def value_persists_full : Prop :=
+  ∀ (d : Dir) (c : Cmd) (n : Str) (proj : Str), DirInv d → Mentions n c = false →
+    Mentions sBuildtype c = false → Mentions sPrefix c = false →
+    (∀ co, d.core = some co → co.optFiles = [([], d.top), (sSub, d.sub)]) →
+    (step d c).2.isOk = true → (step d c).1.core.isSome = true → d.core.isSome = true →
+    (step d c).1.eff proj n = d.eff proj n
+
 /-! ## the test tree of harness/c08.py and the histories on which the pinned tree violates the property -/
 
 def S (d : String) : ObjSpec := { kind := .string, default := .str d.toList }
@@ -449,6 +529,18 @@ example : AllFailOrEdit (runHist d0 [.setup [bn]])
     [.reconfigure [bn, (gk "t_str", sv "late"), (gk "boom_late", sv "true")], .editRemove true "s_str".toList] := by
   refine ⟨(by intro nd h; cases h), Or.inl ⟨.meson, true, (by decide +kernel)⟩, ?_⟩
   exact ⟨(by intro nd h; cases h), Or.inr (Or.inr ⟨true, _, rfl⟩), trivial⟩
+
+/-- the hypotheses of `yield_follows_current_parent_partial_hist` are met by a non-trivial reachable state: after the
+parent object was replaced while the child was overridden and the override was dropped, the child is a registered,
+inheriting option whose parent pointer is the registered top-level object -/
+example : (∀ c ∈ hOverriddenStale, NoTopRemoval c) ∧ d0.core = none ∧
+    ((runHist d0 hOverriddenStale).core.map (fun c =>
+      (alookup (sk "shared") c.store.options).any (fun id => (c.store.heap[id]?).any (fun o =>
+        o.yielding && o.parent.isSome && (alookup (sk "shared") c.store.augments).isNone)))) = some true := by
+  refine ⟨?_, rfl, by decide +kernel⟩
+  intro c hc
+  simp only [hOverriddenStale, List.mem_cons, List.not_mem_nil, or_false] at hc
+  rcases hc with rfl | rfl | rfl | rfl | rfl | rfl <;> trivial
 
 /-- the recorded command line of a real history has distinct keys (hypothesis of `wipe_eq_replay`) -/
 example : ((runHist d0 hWipe).cmdline.map (fun f => decide ((f.map Prod.fst).Nodup))) = some true := by
